@@ -29,6 +29,13 @@ def custom_version_filter(ip, runner):
                            'Algorithms.get_recommendations (version filter)')]
 
 
+def custom_compat(ip, runner):
+    code = c14_version.NATIVE_COMPAT % {'native': os.path.join(VERIF, 'native')}
+    return [native_bounded(runner, 'compatibility-range', 'the compatibility range starts at the numerically latest first-appeared version among the advertised algorithms; the first-appeared versions of the current tables are ordered the same as strings and as numbers (Timeframe compares them as strings)',
+                           code, 'every pair of first-appeared versions per product in the rating tables (ground); 120 seeded pairs of algorithms with a single first-appeared version, audited as OpenSSH 9.9',
+                           'Timeframe._update / output_compatibility')]
+
+
 def custom_cmp_bounded(ip, runner):
     from pyvc.driver import native_bounded
     return [native_bounded(runner, 'Software.compare_version', 'sign of component-wise numeric comparison whenever the numeric parts differ',
@@ -44,7 +51,7 @@ def build(chk, ip, runner):
                        'its None result for non-dotted strings and the regex capture model are bounded / assumed')
     chk.units = c14_version.units() + c14_version.vt_units()
     chk.stubs = c14_version.stubs()
-    chk.customs = [custom_crosscheck, custom_vt_bounded, custom_cmp_bounded, custom_version_filter]
+    chk.customs = [custom_crosscheck, custom_vt_bounded, custom_cmp_bounded, custom_version_filter, custom_compat]
     chk.assumptions = ['version strings are ASCII and contain no newline (banners are sanitised to printable ASCII before Software.parse)',
                        "re.match is modelled per pattern (pyvc/lib.py RE_MODELS); \\d is [0-9]"]
     chk.not_decided = ['versions with more than 4 components (outside the property\'s quantifier)',
